@@ -11,7 +11,7 @@
     destination bit.  [st] ranges over all states, [exec st] over all numbers
     (in particular all 2^64 masks), [p]/[p'] over all lane permutations. *)
 From Coq Require Import List NArith Bool Arith.
-From VIsa Require Import Lanes LanesCorr LanesProofs.
+From VIsa Require Import Lanes LanesCorr LanesProofs LanesTable.
 Import ListNotations.
 Open Scope N_scope.
 
@@ -130,6 +130,27 @@ Proof.
 Qed.
 Print Assumptions representative_handlers_are_lifts.
 
+(** The registration table [LanesTable.handler_table] (generated by the harness
+    from the handlers it finds in the real ALUs; the correspondence check
+    replays every entry against the Go code) lists each implemented vector
+    handler that has a per-lane function in Coq.  Every entry, for all values
+    of the abs / neg fields, all operands, run as the sequential loop the Go
+    code is: inactive lanes untouched (registers, mask-destination bit, no
+    access, memory frame) and equivariance under every lane permutation
+    ([Lanes.lane_independent]) - by instantiation of the generic theorems. *)
+Theorem handler_table_lane_independent :
+  Forall (fun e => forall ab ng o, lane_independent (hdesc (t_h e ab ng) o)) handler_table.
+Proof. apply Forall_forall. intros e _ ab ng o. exact (hdesc_lane_independent (t_h e ab ng) o). Qed.
+Print Assumptions handler_table_lane_independent.
+
+(** The same for any sequential loop whose per-lane function is extensional and
+    a load or a store (not only the tabulated ones). *)
+Theorem seq_loop_is_lane_independent : forall d,
+  fn_ext (d_f d) -> ld_or_st (d_f d) -> (forall st, d_from_acc d = true -> acc0 d st = src_val d st) ->
+  lane_independent d.
+Proof. exact seq_loop_lane_independent. Qed.
+Print Assumptions seq_loop_is_lane_independent.
+
 (** A scalar handler that never asks for EXEC computes the same results under
     any two EXEC values: all other state components agree afterwards, and EXEC
     itself is either overwritten with the same value in both runs or left as
@@ -172,6 +193,26 @@ Example demo_addc_keep :
 Proof. vm_compute. split; reflexivity. Qed.
 Example demo_keep_is_lift : forall st, veq (seq_loop demo_keep_desc st) (vec_lift demo_keep_desc st).
 Proof. intros. apply seq_loop_veq_lift; [apply hfn_ext|apply hfn_ld_or_st|reflexivity]. Qed.
+
+(** the table is not empty (one entry per handler and Coq term) *)
+Example handler_table_size : Nat.leb 240 (length handler_table) = true.
+Proof. vm_compute. reflexivity. Qed.
+
+(** a float compare of the table on a concrete wavefront: v0 = lane number (a
+    denormal), the constant 0xffffffff is a NaN.  v_cmp_nlt_f32 sets the VCC bit
+    of every ACTIVE lane (lanes 1, 2, 5) and clears the others; v_cmp_lt_f32
+    clears all; v_cmp_gt_f32 against +0 (lane 0 holds +0 and is inactive) *)
+Example demo_fcmp :
+  let st := demo_state 38 (9223372036854775808 + 35) in
+  let zero := mkOps ONone ONone (OV 0 0) (OC 0) ONone ONone ONone ONone 0 0 None in
+  vcc (seq_loop (hdesc (H_fcmp FNlt 0 0 false) demo_ops) st) = 38 /\
+  vcc (seq_loop (hdesc (H_fcmp FLt 0 0 false) demo_ops) st) = 0 /\
+  vcc (seq_loop (hdesc (H_fcmp FGt 0 0 false) zero) (demo_state 39 0)) = 38 /\
+  (* with neg on source 0 the lanes hold -0, -1e-45, ..: nothing is > +0 *)
+  vcc (seq_loop (hdesc (H_fcmp FGt 0 1 false) zero) (demo_state 39 0)) = 0 /\
+  (* class: lane 0 is +0 (bit 6), the others positive denormals (bit 7) *)
+  vcc (seq_loop (hdesc (H_fclass true 0 0 false) (mkOps ONone ONone (OV 0 0) (OC 128) ONone ONone ONone ONone 0 0 None)) (demo_state 39 0)) = 38.
+Proof. vm_compute. repeat split; reflexivity. Qed.
 
 (** the hypotheses of the equivariance theorem are satisfiable: rotation by 3 *)
 Definition rot3 (i : nat) : nat := Nat.modulo (i + 3) 64.
